@@ -39,6 +39,7 @@ RULE_TEXT = (
     'DeleteApplication or DeleteModel in an evolution. Non-trivial = the '
     'purge / delete dropped at least one table; distinct = digest of (app '
     'count, removed set, table names, relation topology, kind).')
+RULE_TEXT += ' Kind "relabel_purge" (10%): a still-installed app changes its label in the run that purges a removed app.'
 ASSUMPTIONS = [
     'a removed app is never referenced by a remaining app (otherwise the '
     'remaining models would not import)',
